@@ -460,7 +460,7 @@ func (g *genCtx) drawFraming(h *hset) {
 // request facts drawn next to the header set
 type reqFacts struct {
 	method, proto, host, target, remote, clientIP string
-	major, minor                                 int
+	major, minor                                  int
 }
 
 func (g *genCtx) drawReqFacts(key string) reqFacts {
